@@ -1096,3 +1096,14 @@ def ok_deepcopied_instance_own_state(src):
     m = deepcopy(_Mut())
     m.keep(1)
     m.count = 2
+
+
+def alarm_method_on_instance_in_deepcopied_list(src):
+    ms = deepcopy([_Mut()])
+    ms[0].run(src)
+
+
+def alarm_method_on_instance_in_deepcopied_dict(src):
+    ms = deepcopy({"a": [_Mut()]})
+    for m in ms["a"]:
+        m.run(src)
